@@ -201,6 +201,10 @@ fn enum_c06(tier: &str, r: &mut Rng) -> Vec<Session> {
     for lines in 1..=maxl {
         for cols in [2u32, 3] {
             let mut cands = vec![Call::Index, Call::ReverseIndex, Call::Linefeed];
+            // autowrap: printable characters (narrow, wide, several) at whatever position `place` gives
+            for t in ["x", "\u{4e2d}", "xy", "x\u{301}"] {
+                cands.push(Call::Draw(t.to_string()));
+            }
             for p in param_set(lines) {
                 cands.push(Call::InsertLines(p));
                 cands.push(Call::DeleteLines(p));
@@ -532,12 +536,39 @@ fn enum_c12(tier: &str, r: &mut Rng) -> Vec<Session> {
         }
         cands.push(if r.chance(1, 2) { Call::SetMode(v, p) } else { Call::ResetMode(v, p) });
     }
-    let nstates = counts(tier, 4, 12);
+    // the documented modes (both spellings of the number) from every state, never sampled away
+    let mut core = vec![];
+    for n in [3u32, 4, 5, 6, 7, 20, 25, 96, 128, 160, 192, 224, 640, 800] {
+        for p in [false, true] {
+            core.push(Call::SetMode(vec![n], p));
+            core.push(Call::ResetMode(vec![n], p));
+        }
+    }
+    for a in [5u32, 6, 7, 25, 3] {
+        for b in [6u32, 5, 3, 4] {
+            core.push(Call::SetMode(vec![a, b], true));
+            core.push(Call::ResetMode(vec![a, b], true));
+        }
+    }
+    let nstates = counts(tier, 6, 18);
     for i in 0..nstates {
         let cols = r.range(2, 8);
-        let lines = r.range(2, 5);
+        let lines = if i % 6 >= 4 { r.range(3, 5) } else { r.range(2, 5) };
         let mut prefix = fill_markers(cols, lines, i % 2 == 1);
-        match i % 4 {
+        match i % 6 {
+            4 => {
+                // scrolling region with top > 0, origin mode on, cursor away from the region's home
+                prefix.push(api(Call::SetMargins(Some(2), Some(lines))));
+                prefix.push(api(Call::SetMode(vec![6], true)));
+                prefix.push(api(Call::CursorPosition(Some(2), Some(cols))));
+            }
+            5 => {
+                prefix.push(api(Call::SetMargins(Some(2), Some(lines))));
+                prefix.push(api(Call::SetMode(vec![6, 5], true)));
+                prefix.push(api(Call::SetMode(vec![4], false)));
+                prefix.push(api(Call::ResetMode(vec![25], true)));
+                prefix.push(api(Call::CursorPosition(Some(1), Some(2))));
+            }
             1 => prefix.push(api(Call::SetMode(vec![5, 6], true))),
             2 => {
                 prefix.push(api(Call::SetMargins(Some(2), Some(lines))));
@@ -551,8 +582,11 @@ fn enum_c12(tier: &str, r: &mut Rng) -> Vec<Session> {
             }
             _ => {}
         }
-        prefix.push(api(Call::CursorPosition(Some(r.range(1, lines)), Some(r.range(1, cols)))));
+        if i % 6 < 4 {
+            prefix.push(api(Call::CursorPosition(Some(r.range(1, lines)), Some(r.range(1, cols)))));
+        }
         let keep = if tier == "thorough" { 1 } else { 4 };
+        out.push(sess(format!("c12c{}", i), cols, lines, fan_out(r, prefix.clone(), &core, 1, true)));
         out.push(sess(format!("c12e{}", i), cols, lines, fan_out(r, prefix, &cands, keep, true)));
     }
     // through the parser: SM/RM right after a skipped or aborted (private) sequence
@@ -647,6 +681,108 @@ fn enum_c20(tier: &str, r: &mut Rng) -> Vec<Session> {
     ops.push(api(Call::DefineCharset("BB".into(), "(".into())));
     out.push(sess("c20api".into(), 4, 1, ops));
     let _ = (tier, r);
+    out
+}
+
+/// C04: rows with every pattern of written / never-written cells x cursor column x IRM x DECAWM x text.
+fn enum_c04(tier: &str, r: &mut Rng) -> Vec<Session> {
+    let mut out = vec![];
+    let widths: &[u32] = if tier == "thorough" { &[1, 2, 3, 4, 5, 6] } else { &[2, 4, 5] };
+    let mut n = 0;
+    for &cols in widths {
+        for mask in 0u32..(1 << cols) {
+            for irm in [false, true] {
+                for awm in [true, false] {
+                    let mut prefix = vec![];
+                    prefix.push(api(Call::Sgr(vec![32, 44])));
+                    for x in 0..cols {
+                        if mask & (1 << x) != 0 {
+                            prefix.push(api(Call::CursorPosition(Some(1), Some(x + 1))));
+                            prefix.push(api(Call::ResetMode(vec![7], true)));
+                            prefix.push(api(Call::Draw(char::from_u32('A' as u32 + x).unwrap().to_string())));
+                            prefix.push(api(Call::SetMode(vec![7], true)));
+                        }
+                    }
+                    prefix.push(api(Call::Sgr(vec![0, 4, 35])));
+                    if irm {
+                        prefix.push(api(Call::SetMode(vec![4], false)));
+                    }
+                    if !awm {
+                        prefix.push(api(Call::ResetMode(vec![7], true)));
+                    }
+                    let mut ops = vec![Op::Quiet(true)];
+                    ops.extend(prefix);
+                    ops.push(Op::Quiet(false));
+                    for cx in 0..=cols {
+                        for t in ["x", "\u{4e2d}", "xy", "\u{301}", "\u{4e2d}z"] {
+                            if r.chance(1, 2) && tier != "thorough" && cols > 2 {
+                                continue;
+                            }
+                            ops.push(Op::Snap);
+                            ops.push(Op::Quiet(true));
+                            ops.push(api(Call::CursorPosition(Some(1), Some(cx.min(cols - 1) + 1))));
+                            if cx == cols {
+                                // pending wrap (the cell in the last column is written by this)
+                                ops.push(api(Call::ResetMode(vec![4], false)));
+                                ops.push(api(Call::Draw("w".into())));
+                                if irm {
+                                    ops.push(api(Call::SetMode(vec![4], false)));
+                                }
+                            }
+                            ops.push(Op::Quiet(false));
+                            ops.push(api(Call::Draw(t.to_string())));
+                            ops.push(Op::Back);
+                        }
+                    }
+                    n += 1;
+                    out.push(sess(format!("c04e{}", n), cols, 2, ops));
+                }
+            }
+        }
+    }
+    out
+}
+
+/// C15: histories over a small alphabet in which RIS, DECSC / DECRC, charset designation and shifts,
+/// tab stops, modes and margins interleave, with several resets per history.
+fn enum_c15(tier: &str, r: &mut Rng) -> Vec<Session> {
+    let alphabet: Vec<Call> = vec![
+        Call::Reset,
+        Call::Reset,
+        Call::SaveCursor,
+        Call::RestoreCursor,
+        Call::DefineCharset("0".into(), "(".into()),
+        Call::DefineCharset("U".into(), ")".into()),
+        Call::ShiftOut,
+        Call::SetTabStop,
+        Call::ClearTabStop(Some(0)),
+        Call::ClearTabStop(Some(3)),
+        Call::CursorPosition(Some(2), Some(9)),
+        Call::CursorToColumn(Some(1)),
+        Call::SetMode(vec![6], true),
+        Call::SetMode(vec![5], true),
+        Call::SetMode(vec![4], false),
+        Call::ResetMode(vec![7, 25], true),
+        Call::SetMargins(Some(2), Some(3)),
+        Call::Sgr(vec![7, 31]),
+        Call::Draw("q".into()),
+        Call::SetTitle("t".into()),
+        Call::Resize(Some(3), Some(12)),
+        Call::Tab,
+    ];
+    let mut out = vec![];
+    for i in 0..counts(tier, 400, 8000) {
+        let n = r.range(3, 14);
+        let mut ops = vec![];
+        for _ in 0..n {
+            let c = r.pick(&alphabet).clone();
+            push_cand(r, &mut ops, &c);
+        }
+        ops.push(api(Call::Reset));
+        ops.push(api(Call::Draw("q".into())));
+        ops.push(api(Call::Tab));
+        out.push(sess(format!("c15e{}", i), *r.pick(&[20u32, 10, 17]), 4, ops));
+    }
     out
 }
 
@@ -782,6 +918,12 @@ fn enum_c19(tier: &str, r: &mut Rng) -> Vec<Session> {
         let n = r.range(5, 60);
         payloads.push((0..n).map(|_| *r.pick(&alphabet)).collect::<Vec<_>>().concat());
     }
+    // long payloads (nothing in the documented behaviour bounds the length of a title)
+    for n in [255usize, 256, 1023, 1024, 4094, 4095, 4096, 4097, 8192, 20000] {
+        payloads.push("t".repeat(n));
+        payloads.push("\u{4e2d}".repeat(n / 3 + 1));
+        payloads.push(format!("{};{}", "a".repeat(n / 2), "\u{e9}".repeat(n / 2)));
+    }
     let mut out = vec![];
     let codes = ["0", "1", "2", "3", "4", "9", "a", "R", "p", "P", "10", ";"];
     for (i, p) in payloads.iter().enumerate() {
@@ -854,6 +996,35 @@ fn enum_c11(tier: &str, r: &mut Rng) -> Vec<Session> {
             out.push(Session { columns: 4, lines: 1, bytes: true, events_only: true, id: format!("c11d{}n{}", ui, n), ops });
         }
     }
+    // byte-order marks: at the very start, after every kind of mode switch, split across feeds
+    let boms: [&[u8]; 6] = [b"\xef\xbb\xbf", b"\xff\xfe", b"\xfe\xff", b"\xef\xbb", b"\xef\xbb\xbf\xef\xbb\xbf", b"\xff\xfeA\x00"];
+    let switches: [&[&str]; 7] = [&[], &["@", "G"], &["@", "8"], &["G"], &["8"], &["@", "G", "@", "G"], &["x"]];
+    let mut nb = 0;
+    for bom in boms {
+        for sw in switches {
+            for pre in [&b""[..], &b"a"[..], &b"\xe4\xb8"[..]] {
+                for split in [false, true] {
+                    let mut ops = vec![];
+                    if !pre.is_empty() {
+                        ops.push(Op::FeedB(pre.to_vec()));
+                    }
+                    for c in sw.iter() {
+                        ops.push(Op::Charset((*c).into()));
+                    }
+                    if split {
+                        for x in bom {
+                            ops.push(Op::FeedB(vec![*x]));
+                        }
+                    } else {
+                        ops.push(Op::FeedB(bom.to_vec()));
+                    }
+                    ops.push(Op::FeedB(b"ABCD\xc3\xa9Z".to_vec()));
+                    nb += 1;
+                    out.push(Session { columns: 8, lines: 2, bytes: true, events_only: nb % 2 == 0, id: format!("c11b{}", nb), ops });
+                }
+            }
+        }
+    }
     // mode switches between chunks
     for i in 0..counts(tier, 300, 6000) {
         let mut ops = vec![];
@@ -903,6 +1074,7 @@ pub fn generate(prop: &str, tier: &str, seed: u64) -> Vec<Session> {
         "C16" => out.extend(enum_c16(tier, &mut r)),
         "C18" => out.extend(enum_c18(tier, &mut r)),
         "C20" => out.extend(enum_c20(tier, &mut r)),
+        "C15" => out.extend(enum_c15(tier, &mut r)),
         "C03" => out.extend(enum_c03(tier, &mut r)),
         "C19" => out.extend(enum_c19(tier, &mut r)),
         "C11" => out.extend(enum_c11(tier, &mut r)),
@@ -931,9 +1103,21 @@ pub fn generate(prop: &str, tier: &str, seed: u64) -> Vec<Session> {
             out.extend(enum_c08(tier, &mut r).into_iter().take(1));
             if prop == "C17" {
                 out.extend(generate("C17b", tier, seed).into_iter().filter(|s| s.id.starts_with("C17bd")));
+                out.extend(enum_c07(tier, &mut r).into_iter().step_by(step));
+                out.extend(enum_c13(tier, &mut r).into_iter().step_by(step * 2));
+                // two sessions in three are run by an embedder that repaints (clears the dirty set)
+                // after every call, so that each operation has to account for its own rows
+                for (k, s) in out.iter_mut().enumerate() {
+                    if k % 3 != 0 {
+                        s.ops.insert(0, Op::AutoClear(true));
+                    }
+                }
             }
         }
         "C04" | "C10" | "C17b" => {
+            if prop == "C04" {
+                out.extend(enum_c04(tier, &mut r));
+            }
             // draw-heavy sessions on tiny screens with every mode combination
             for i in 0..counts(tier, 300, 6000) {
                 let cols = r.range(1, 5);
@@ -1059,6 +1243,13 @@ fn stream_session(r: &mut Rng, id: String, bytes: bool, nops: u32) -> Session {
         }
         if bytes && r.chance(1, 8) {
             raw.extend_from_slice(&gen::utf8_garbage(r));
+            continue;
+        }
+        if !eight_bit && r.chance(1, 12) {
+            // "select other coding system" in the stream, followed by non-ASCII text
+            let g = format!("\x1b%{}{}", *r.pick(&["@", "G", "8", "x"]), "\u{e9}\u{4e2d}a");
+            text.push_str(&g);
+            raw.extend_from_slice(g.as_bytes());
             continue;
         }
         let c = gen::call(r, cols, lines, "any");
